@@ -571,7 +571,31 @@ namespace chaiscript::json {
       return JSON();
     }
 
+    /// Nested arrays/objects are parsed recursively; bound the depth so that hostile input raises instead of
+    /// exhausting the native stack
+    struct Depth_Guard {
+      static constexpr std::size_t max_depth = 512;
+
+      explicit Depth_Guard(std::size_t &t_depth)
+          : m_depth(t_depth) {
+        if (m_depth >= max_depth) {
+          throw std::runtime_error("JSON ERROR: Parse: Maximum nesting depth exceeded");
+        }
+        ++m_depth;
+      }
+
+      ~Depth_Guard() { --m_depth; }
+
+      Depth_Guard(const Depth_Guard &) = delete;
+      Depth_Guard &operator=(const Depth_Guard &) = delete;
+
+      std::size_t &m_depth;
+    };
+
     static JSON parse_next(const std::string &str, size_t &offset) {
+      thread_local std::size_t depth = 0;
+      const Depth_Guard guard(depth);
+
       char value;
       consume_ws(str, offset);
       value = str.at(offset);
